@@ -259,7 +259,7 @@ def grown_cases(n_spaces, rnd, tag):
 
 def main():
     doc = hlib.payload()
-    if doc is not None:
+    if doc is not None and 'replay' in doc:
         rp = doc['replay']
         if 'shape' not in rp or rp['shape'] is None:
             hlib.emit({'fails': False, 'note': 'no concrete input recorded: ' + str(rp)[:400]})
